@@ -10,6 +10,9 @@ V12 = {
     "clientauth12": dict(ver="12", helloVerify=True, clientAuth=4, clientCert=True, verify=True, **NOCID),
     "resume12": dict(ver="12", helloVerify=True, resume=True, **NOCID),
     "cid12": dict(ver="12", helloVerify=True, cidC=4, cidS=8),
+    # session stores on both sides; the client offers a session id the server does not know (full handshake with cookie exchange)
+    "stale12": dict(ver="12", helloVerify=True, staleC=True, **NOCID),
+    "stores12": dict(ver="12", helloVerify=True, stores=True, **NOCID),
     "frag12": dict(ver="12", helloVerify=True, mtu=200, **NOCID),
     # MTU 900: the server's Flight 4 travels in exactly two datagrams (Handshake12 Split variant), all other flights in one
     "split12": dict(ver="12", helloVerify=True, mtu=900, **NOCID),
@@ -25,5 +28,5 @@ V13 = {
 ALL = dict(V12, **V13)
 
 # which Handshake12 model variant a scenario follows (same flights, one datagram per flight)
-MODEL12 = {"full12": "full", "psk12": "full", "ecdhepsk12": "full", "clientauth12": "full", "cid12": "full",
+MODEL12 = {"full12": "full", "psk12": "full", "ecdhepsk12": "full", "clientauth12": "full", "cid12": "full", "stale12": "full", "stores12": "full",
            "nohv12": "nohv", "resume12": "resume", "split12": "split"}
